@@ -152,3 +152,14 @@ def gen_failed_result(g, api=None, extra_mech=None):
     return {"verdict": "violated", "evaluations": 1, "counters": {"generation_failed": 1},
             "violations": [{"clause": "generation-fails", "detail": g.failure(), "mech": mech}],
             "sample": {"tags": sorted(api.tags)[:20] if api is not None else []}}
+
+
+def runner_failed_result(ev, rc, err, api=None):
+    """Result for a runner that produced no events: an import failure of the emitted library is a violation
+    (clause library-import-fails); anything else is a harness problem (inconclusive)."""
+    if ev and "library_import_error" in ev:
+        e = ev["library_import_error"]
+        return {"verdict": "violated", "evaluations": 1, "counters": {"library_import_failed": 1},
+                "violations": [{"clause": "library-import-fails", "detail": e, "mech": {"exc_type": e["type"]}}],
+                "sample": {"tags": sorted(api.tags)[:20] if api is not None else []}}
+    return {"verdict": "inconclusive", "why": f"runner rc={rc} {err[-600:]} {str(ev)[:1500]}"}
